@@ -46,7 +46,13 @@ class PydanticValidator(base.BaseValidator):
         """
 
         signature = self.signature(method, tuple(exclude))
-        schema = self.build_validation_schema(signature)
+        try:
+            hash(signature)
+        except TypeError:
+            # a signature holding an unhashable default (``tags: List[str] = []``) can't be a cache key
+            schema = self.build_validation_schema.__wrapped__(self, signature)
+        else:
+            schema = self.build_validation_schema(signature)
 
         # string (postponed) annotations are resolved in the namespace of the method's module
         params_model = pydantic.create_model(
